@@ -82,10 +82,10 @@ def walkedPaths {α : Type} (o : Oracle) (inv : Nat) : Tree α → Dyn → List 
   | .cmd c pre effs ok fail, d =>
     let idx := d.log.length
     let s := cmdStatus o d.fs idx c pre
-    if s = 0 then effs.flatMap effectPath ++ walkedPaths o inv ok { fs := applyEffs inv idx d.fs effs, log := d.log ++ [(c, 0)] }
-    else walkedPaths o inv fail { d with log := d.log ++ [(c, s)] }
-  | .ask q y n, d => if answer o d.fs q then walkedPaths o inv y d else walkedPaths o inv n d
-  | .eff e next, d => effectPath e ++ walkedPaths o inv next { d with fs := applyEff inv d.log.length d.fs e }
+    if s = 0 then effs.flatMap effectPath ++ walkedPaths o inv (ok ()) { fs := applyEffs inv idx d.fs effs, log := d.log ++ [(c, 0)] }
+    else walkedPaths o inv (fail ()) { d with log := d.log ++ [(c, s)] }
+  | .ask q y n, d => if answer o d.fs q then walkedPaths o inv (y ()) d else walkedPaths o inv (n ()) d
+  | .eff e next, d => effectPath e ++ walkedPaths o inv (next ()) { d with fs := applyEff inv d.log.length d.fs e }
 
 def strList (j : Json) : Except String (List String) := do
   let a ← j.getArr?
